@@ -29,7 +29,7 @@ ASSUMPTIONS = ['strings are not capped by the property; they enter the bound B o
 REAL = ['smartquery.*', 'regex (benign patterns)']
 STUB = ['host (supplies boundary containers, observes them from outside)']
 REACH_PROBES = ('not_yet_in_the_language', 'host_calls_stored_lambda', 'adder_refused_at_cap', 'adder_accepted_below_cap', 'refused_then_judged', 'len_9999_to_10000',
-                'growth_chain', 'oversize_seen', 'dict_at_cap', 'list_at_cap', 'pop_then_push_at_boundary')
+                'growth_chain', 'oversize_seen', 'dict_at_cap', 'list_at_cap', 'pop_then_push_at_boundary', 'unknown_builtin_sweep')
 
 SIZES = [0, 1, 9998, 9999, 10000, 10001]
 
@@ -48,6 +48,7 @@ def _world(r):
     if r.random() < 0.3:
         names['dd'] = {'ddrange': r.choice([9999, 10000, 10000])}      # a host collections.defaultdict at the boundary
     names['hl'] = {'range': r.choice([101, 150])}
+    names['gd'] = {'m': [['x', {'range': r.choice([9999, 10000])}], ['y', [1]]]}       # a dict of lists (groups), one of them at the cap
     return {'names': names, 'host_fns': []}
 
 
@@ -218,6 +219,16 @@ def generate(seed, tier):
     model = history.model_only(world)
     ops = []
     for _ in range(rc.randint(4, 16)):
+        if ro.random() < 0.07:
+            # a table entry the reference semantics do not know (one that may be added some day): whatever it is, it must
+            # not leave a container above the bound behind - called with boundary containers in several shapes
+            ops.append({'op': 'unknown_builtin', 'pick': ro.randrange(1000), 'shape': ro.randrange(7), 'kind': 'unknown_builtin'})
+            continue
+        if ro.random() < 0.04:
+            ops.append({'op': 'eval', 'prog': ['call', 'push', [['name', 'gd'], ['str', ro.choice(['x', 'y', 'z'])], ['num', '1']], gen.sugar(ro, 3)],
+                        'style': gen.style(S['render']), 'kind': 'push'})
+            model.run(ops[-1]['prog'])
+            continue
         prog, kind = _gen_op(ro, model)
         if kind == 'newsyntax':
             ops.append({'op': 'src', 'src': prog[1], 'kind': kind})
@@ -298,6 +309,29 @@ def execute(case, ctx):
             if rout.kind == 'value':
                 break       # a form the reference model does not know was accepted: the model cannot follow from here
             continue
+        if op['op'] == 'unknown_builtin':
+            from ..model import MODELLED_BUILTINS, UNMODELLED_BUILTINS
+            live = monitors.M.functions.FUNCTIONS
+            unknown = sorted(n for n in live if n not in MODELLED_BUILTINS and n not in UNMODELLED_BUILTINS)
+            ctx.probe('unknown_builtin_sweep')
+            if not unknown:
+                continue
+            fn = unknown[op['pick'] % len(unknown)]
+            if 'bigi' not in W.names:
+                W.names['bigi'] = {i: i for i in range(CAP)}          # a host dict with int keys, at the cap
+                W.names['smalli'] = {0: 1, 1: 2, 2: 3}                # ... and a small one whose keys are among them
+            grow = '(x => ((len(big) < 10000 and push(big, 0)) or x))'       # a key function that fills the list up to the cap
+            src = ['%s(big, 0)', '%s(big, 0, ' + grow + ')', '%s(bigd, {"n1": 1, "n2": 2, "n3": 3})', '%s(bigi, smalli)', '%s(big, 1, 2, 3)',
+                   '%s(gd, "x", 1)', '%s(bigd, "nk", 1)'][op['shape'] % 7] % fn
+            before = max([len(o) for v in W.names.values() for o in canon.reachable_mutables(v).values()] + [0])
+            rout = real_eval(W.parser, src, W.names, budget=10 ** 6)
+            ctx.event(step, 'unknown_builtin', fn, rout.kind)
+            roots = list(W.names.values()) + ([rout.value] if rout.kind == 'value' else [])
+            big_now = [len(o) for v in roots for o in canon.reachable_mutables(v).values() if len(o) > max(biggest[0], before, B)]
+            if big_now:
+                ctx.report('cap_bypass', 'step %d %r: after the call a container of %d elements is reachable from names/result (bound %d)' % (
+                    step, src, max(big_now), B), {'kind': 'cap_bypass', 'site': 'call:' + fn})
+            break       # the reference model cannot follow what an unknown builtin did
         if op['op'] == 'hostcall':
             # the host itself invokes a lambda a program left in names, outside any eval call: the program's code
             # still must not grow a container past the cap
